@@ -160,6 +160,7 @@ func parenC03(c *Ctx, tt *tokenTable) {
 	}
 	parenPrintC03(c)
 	fmtConstRule(c, "C03.fmtconst")
+	keywordLookupRule(c, "C03.kwlookup")
 	// --- a whole expression is parsed for an operand only inside parentheses ---
 	c.Rule("C03.operandexpr", "every ParseExpr call in parseUnaryExpr has its result stored into a ParenExpr (the group in parentheses): an operand that is parsed as a whole expression without being wrapped takes the rest of the operator chain with it, and the printed text regroups")
 	{
